@@ -977,6 +977,205 @@ func (r *Reader) Close() error {""", """	return position + int64(bodySize+traile
 }
 
 func (r *Reader) Close() error {""")]),
+ ("Close: early return form for the read-only branch, closed readers through a helper", [("log.go", """	if l.opts.Readonly {
+		l.readersMu.Lock()
+		defer l.readersMu.Unlock()
+
+		for _, reader := range l.readers {
+			if err := reader.Close(); err != nil {
+				return err
+			}
+		}
+	} else {
+		l.writerMu.Lock()
+		defer l.writerMu.Unlock()
+
+		l.readersMu.Lock()
+		defer l.readersMu.Unlock()
+
+		if err := l.writer.Sync(); err != nil {
+			return err
+		}
+
+		if err := l.writer.Close(); err != nil {
+			return err
+		}
+
+		for _, reader := range l.readers[:len(l.readers)-1] {
+			if err := reader.Close(); err != nil {
+				return err
+			}
+		}
+	}
+""", """	if l.opts.Readonly {
+		l.readersMu.Lock()
+		defer l.readersMu.Unlock()
+
+		if err := closeAll(l.readers); err != nil {
+			return err
+		}
+	} else {
+		l.writerMu.Lock()
+		defer l.writerMu.Unlock()
+
+		l.readersMu.Lock()
+		defer l.readersMu.Unlock()
+
+		if err := l.writer.Sync(); err != nil {
+			return err
+		}
+
+		if err := l.writer.Close(); err != nil {
+			return err
+		}
+
+		if err := closeAll(l.readers[:len(l.readers)-1]); err != nil {
+			return err
+		}
+	}
+"""), ("log.go", "func (l *log) GC(unusedFor time.Duration) error {", """func closeAll(readers []*reader) error {
+	for _, reader := range readers {
+		if err := reader.Close(); err != nil {
+			return err
+		}
+	}
+	return nil
+}
+
+func (l *log) GC(unusedFor time.Duration) error {""")]),
+ ("Sync: read-write branch first", [("log.go", """func (l *log) Sync() (int64, error) {
+	if l.opts.Readonly {
+		l.readersMu.RLock()
+		defer l.readersMu.RUnlock()
+
+		rdr := l.readers[len(l.readers)-1]
+		return rdr.GetNextOffset()
+	}
+
+	l.writerMu.Lock()
+	defer l.writerMu.Unlock()
+
+	if err := l.writer.Sync(); err != nil {
+		return OffsetInvalid, err
+	}
+	return l.writer.GetNextOffset()
+}""", """func (l *log) Sync() (int64, error) {
+	if !l.opts.Readonly {
+		l.writerMu.Lock()
+		defer l.writerMu.Unlock()
+
+		err := l.writer.Sync()
+		if err != nil {
+			return OffsetInvalid, err
+		}
+		return l.writer.GetNextOffset()
+	}
+
+	l.readersMu.RLock()
+	defer l.readersMu.RUnlock()
+
+	rdr := l.readers[len(l.readers)-1]
+	return rdr.GetNextOffset()
+}""")]),
+ ("writer.Publish: range with value copy-back, offset counter", [("log_writer.go", """	items := make([]index.Item, len(msgs))
+	for i := range msgs {
+		msgs[i].Offset = nextOffset + int64(i)
+		if msgs[i].Time.IsZero() {
+			msgs[i].Time = time.Now().UTC()
+		}
+
+		position, err := w.messages.Write(msgs[i])
+		if err != nil {
+			return OffsetInvalid, err
+		}
+
+		items[i] = w.params.NewItem(msgs[i], position, indexTime)
+		if err := w.items.Write(items[i]); err != nil {
+			return OffsetInvalid, err
+		}
+		indexTime = items[i].Timestamp
+	}
+""", """	items := make([]index.Item, 0, len(msgs))
+	for i := range msgs {
+		msg := &msgs[i]
+		msg.Offset = nextOffset + int64(i)
+		if msg.Time.IsZero() {
+			msg.Time = time.Now().UTC()
+		}
+
+		position, err := w.messages.Write(*msg)
+		if err != nil {
+			return OffsetInvalid, err
+		}
+
+		item := w.params.NewItem(*msg, position, indexTime)
+		if err := w.items.Write(item); err != nil {
+			return OffsetInvalid, err
+		}
+		items = append(items, item)
+		indexTime = item.Timestamp
+	}
+""")]),
+ ("writer.Sync and Close: errors joined at the end of each step", [("log_writer.go", """func (w *writer) Sync() error {
+	if err := w.messages.Sync(); err != nil {
+		return err
+	}
+	if err := w.items.Sync(); err != nil {
+		return err
+	}
+	return nil
+}""", """func (w *writer) Sync() error {
+	err := w.messages.Sync()
+	if err == nil {
+		err = w.items.Sync()
+	}
+	return err
+}""")]),
+ ("writer.Close: first error carried to one return", [("log_writer.go", """func (w *writer) Close() error {
+	if err := w.messages.Close(); err != nil {
+		return err
+	}
+	if err := w.items.Close(); err != nil {
+		return err
+	}
+
+	return w.reader.Close()
+}""", """func (w *writer) Close() error {
+	err := w.messages.Close()
+	if err == nil {
+		err = w.items.Close()
+	}
+	if err == nil {
+		err = w.reader.Close()
+	}
+	return err
+}""")]),
+ ("Override: renames chained on one error variable", [("pkg/segment/segment.go", """	if err := os.Rename(olds.Log, news.Log); err != nil {
+		return fmt.Errorf("override log rename: %w", err)
+	}
+	if err := os.Rename(olds.Index, news.Index); err != nil {
+		return fmt.Errorf("override index rename: %w", err)
+	}
+
+	if err := news.syncDir(); err != nil {
+		return fmt.Errorf("override sync dir: %w", err)
+	}
+
+	return nil
+}""", """	err := os.Rename(olds.Log, news.Log)
+	if err != nil {
+		return fmt.Errorf("override log rename: %w", err)
+	}
+	err = os.Rename(olds.Index, news.Index)
+	if err != nil {
+		return fmt.Errorf("override index rename: %w", err)
+	}
+	err = news.syncDir()
+	if err != nil {
+		err = fmt.Errorf("override sync dir: %w", err)
+	}
+	return err
+}""")]),
 ]
 
 def main():
